@@ -23,14 +23,14 @@ def sample_progs(progs, n=4):
 
 
 def distinct_classes(progs):
-    """Distinct non-trivial cases: programs that differ in family, meta data or step structure
-    (operation names and method names), and that perform at least one library operation."""
-    cls = set()
+    """Distinct non-trivial cases: programs with at least one library operation, counted once per distinct
+    step list (operations, arguments, byte strings, schedules) -- measured on the generated programs."""
+    seen = set()
     for p in progs:
-        shape = tuple((s.get("op"), s.get("m"), s.get("type")) for s in p["steps"])
-        if len(shape) >= 2:
-            cls.add((p.get("fam"), json.dumps(p.get("meta"), sort_keys=True), shape))
-    return len(cls)
+        if len(p["steps"]) < 1:
+            continue
+        seen.add(hash(json.dumps(p["steps"], sort_keys=True)))
+    return len(seen)
 
 
 def api_cfgs(run, depth):
@@ -56,7 +56,22 @@ def gather(run, fams):
     return progs
 
 
-def check(run, prop, claims, fams, rule, assumptions, level=LEVEL_MC, keep=None, drive_kw=None, extra_cov=None):
+MC_STREAM_CFG = ("SPECIFICATION Spec\nINVARIANT Safety\nINVARIANT PacketOnlyIfComplete\nINVARIANT FaultReported\n"
+                 "INVARIANT NoGivingUp\nINVARIANT NotStuck\nPROPERTY Termination\nCHECK_DEADLOCK FALSE\nCONSTANTS MaxZeros = 2\n")
+
+
+def model_theorems(run, models):
+    """Design-level model checking of a specification module; a failure means the specification is wrong (exit 2)."""
+    for module, cfg in models:
+        rc, text, path = run.tlc(module, cfg, "mc-" + module, workers=4, xmx="4g")
+        if rc != 0 or "No error has been found" not in text:
+            raise Infra("model checking of %s failed (rc %s); see %s\n%s" % (module, rc, path, vlib.tail(text)))
+        os.remove(path)
+
+
+def check(run, prop, claims, fams, rule, assumptions, level=LEVEL_MC, keep=None, drive_kw=None, extra_cov=None, models=None):
+    if models:
+        model_theorems(run, models)
     progs = gather(run, fams)
     if keep:
         progs = [p for p in progs if keep(p)]
@@ -117,7 +132,9 @@ def c06(run):
     return check(run, "C06", {"C06"}, [("seq", ONE_PART)],
                  "all sequences of 1..2 (thorough 1..3) frames from the short-frame corpus (valid, must-reject, either, type 0) "
                  "followed by trailing bytes, read by successive ReadPacket calls on one counting reader; every Read request "
-                 "must stay within what is known to belong to the current frame (StreamIO!KnownNeed)", [])
+                 "must stay within what is known to belong to the current frame (StreamIO!KnownNeed); "
+                 "MC_Stream model-checks the reader rules (15 k states, safety + termination)", [],
+                 models=[("MC_Stream", MC_STREAM_CFG)])
 
 
 def c07(run):
@@ -125,14 +142,15 @@ def c07(run):
                  "every corpus frame of at most 7 (thorough 10) bytes x every composition of its length into chunks x final "
                  "chunk with io.EOF or (0, io.EOF) after, plus (0,nil) reads at up to two positions; each Read is a StreamIO "
                  "step and the outcome must equal the outcome of the contiguous read",
-                 ["D5: same rejection = nil packet and non-nil error", "D6: request sizes free as long as they cannot over-read"])
+                 ["D5: same rejection = nil packet and non-nil error", "D6: request sizes free as long as they cannot over-read"],
+                 models=[("MC_Stream", MC_STREAM_CFG)])
 
 
 def c08(run):
     return check(run, "C08", {"C08"}, [("fault", ONE_PART)],
                  "every corpus frame x every cut offset k in [0, L] x {EOF, error E} x {with the last bytes, on the next call} x "
                  "fragmentations of the delivered prefix", ["D5: errors.Is(err, E) / errors.Is(err, io.EOF) only"],
-                 level="fault_enumeration")
+                 level="fault_enumeration", models=[("MC_Stream", MC_STREAM_CFG)])
 
 
 def c09(run):
@@ -201,6 +219,27 @@ def c19(run):
                  "values of all 16 types, and for all 256 values of each rendered byte", ["D9"])
 
 
+def c13(run):
+    return check(run, "C13", {"C13"}, [("conc", TYPE_PARTS)],
+                 "TLC enumerates the configurations: every unordered pair (thorough: triple) of read-only operations {WriteTo, "
+                 "String, Dump, WellFormed, accessor sweep, ReadPacket on a private stream} x 15 types, on a packet carrying every "
+                 "property (CONNECT: with a will message that is also used directly); the driver, built with -race, runs them in "
+                 "4 (thorough 8) goroutines released by a barrier, 200 (thorough 2000) repetitions each; a race report or a "
+                 "concurrent encoding that differs from the sequential one is a violation",
+                 ["D10: goroutines start after the packets are built", "race freedom is observed by the Go race detector "
+                  "(no false positives) for the executions that ran; TLA+ contributes the configurations and the expected bytes"],
+                 level="exploration", drive_kw={"race": True, "workers": 4, "timeout_ms": 60000})
+
+
+def c15(run):
+    return check(run, "C15", {"C15"}, [("vbi", ONE_PART), ("build", [[3], [10]])],
+                 "values within 300 of 0, 128, 16384, 2097152, 268435455 and all 2^k, 2^k +- 1 through the encoder and both "
+                 "decoders behind hook H1; all byte sequences of length <= 4 (thorough 5) over {00,01,7f,80,81,ff}; five-byte "
+                 "continuations; the subscription identifier and remaining length through the public API; TLC compares every "
+                 "result with Bytes!VBI / VBIRead",
+                 ["non-minimal forms are neither required nor forbidden: only agreement of the two decoders is demanded there"])
+
+
 def replay(run, prop, path):
     data = json.load(open(path))
     pr = data["program"]
@@ -218,4 +257,4 @@ def replay(run, prop, path):
 
 
 PLANS = {"C01": c01, "C02": c02, "C03": c03, "C04": c04, "C05": c05, "C06": c06, "C07": c07, "C08": c08, "C09": c09,
-         "C10": c10, "C11": c11, "C12": c12, "C14": c14, "C16": c16, "C17": c17, "C18": c18, "C19": c19}
+         "C10": c10, "C11": c11, "C12": c12, "C13": c13, "C14": c14, "C15": c15, "C16": c16, "C17": c17, "C18": c18, "C19": c19}
